@@ -371,6 +371,124 @@ def run(ctx):
         ok2 = any(A.access_path(og.of_operand(t["args"][0])) == ("P1", "reads") for b, t in hc.calls() if A.cname(t).startswith("std::sync::Mutex") and A.cname(t).endswith("::lock"))
         ctx.ob("R-C07.6", hc, "own-reads-vs-other-writes", ok and ok2, "has_conflict compares self.reads with other.conflict_keys" if ok and ok2 else "has_conflict does not compare self.reads against other.conflict_keys")
 
+    # ---- R-C07.14 the recording functions really record.  R-C07.1/2 decide that every read / write method CALLS mark_read /
+    # mark_range / mark_conflict with its own operands; here: what those do with them.
+    for fid_, coll, meth in ((CM + "::push_read", "Vec", "push"), (CM + "::mark_conflict", "BTreeSet", "insert")):
+        f_ = ctx.fn(fid_, "R-C07.14")
+        if not f_:
+            continue
+        og_ = ctx.og(f_)
+        stores = [b for b, t in f_.calls() if A.cname(t).endswith("::" + meth) and coll in A.cname(t) and len(t["args"]) > 1 and
+                  og_.of_operand(t["args"][1]).k == "param" and og_.of_operand(t["args"][1]).a[0] == 3]
+        r_ = A.reach(f_, [0], avoid=stores)
+        skip = [x for x in f_.return_blocks() if x in r_]
+        # and into the map of the right field, under the given keyspace id
+        keyed = all(any(x.k == "param" and x.a[0] == 2 for x in A.walk(og_.of_operand(f_.term(b)["args"][0]))) for b in stores)
+        ctx.ob("R-C07.14", f_, "records-its-operand-on-every-path", bool(stores) and not skip and keyed,
+               "%s: %s::%s(.., the given %s) under the given keyspace id on every path" % (fid_.rsplit("::", 1)[-1], coll, meth, "read" if meth == "push" else "key") if (stores and not skip and keyed) else
+               "%s can return without storing its operand (or stores it under another keyspace): %s" % (fid_.rsplit("::", 1)[-1],
+                   "reads that are not recorded are never validated — a transaction whose observation was invalidated commits" if meth == "push" else "writes that are not recorded never invalidate anybody — lost updates and write skew commit"))
+    mr = ctx.fn(CM + "::mark_read", "R-C07.14")
+    if mr:
+        og_ = ctx.og(mr)
+        pr = [t for b, t in mr.calls() if A.cname(t) == CM + "::push_read"]
+        ok = False
+        if pr:
+            a2 = og_.of_operand(pr[0]["args"][1])
+            a3 = og_.of_operand(pr[0]["args"][2])
+            ok = a2.k == "param" and a2.a[0] == 2 and a3.k == "agg" and str(a3.a[0]).endswith("Read::Single") and any(x.k == "param" and x.a[0] == 3 for x in A.walk(a3))
+        ctx.ob("R-C07.14", mr, "mark_read-records-single-key", ok, "mark_read = push_read(keyspace id, Read::Single(key))" if ok else "mark_read does not record Read::Single(its key) under its keyspace id")
+    mg = ctx.fn(CM + "::mark_range", "R-C07.14")
+    if mg is None:
+        cands = [f for f in F.fns if f.startswith(CM + "::mark_range")]
+        mg = F.fns[cands[0]] if cands else ctx.fn(CM + "::mark_range", "R-C07.14")
+    if mg:
+        og_ = ctx.og(mg)
+        pr = [b for b, t in mg.calls() if A.cname(t) == CM + "::push_read"]
+        r_ = A.reach(mg, [0], avoid=pr)
+        ok = bool(pr) and not [x for x in mg.return_blocks() if x in r_]
+        # bound kinds are preserved: Included -> Included, Excluded -> Excluded, Unbounded -> Unbounded (two matches)
+        kinds_ok = 0
+        for b, blk in enumerate(mg.blocks):
+            t = blk["t"]
+            if t["k"] != "switch" or blk["cleanup"]:
+                continue
+            vm = A.discr_variants(mg, t["d"])
+            if not vm or set(vm.values()) != {"Included", "Excluded", "Unbounded"}:
+                continue
+            _, labels = A.switch_info(mg, b)
+            good = True
+            for tg, ns in labels.items():
+                for nm in ns:
+                    if nm not in ("Included", "Excluded", "Unbounded"):
+                        continue
+                    # the first Bound aggregate built on that arm has the same variant
+                    found = None
+                    for x in sorted(A.reach(mg, [tg], avoid=[y for y in range(len(mg.blocks)) if mg.blocks[y]["t"]["k"] == "switch" and y != b])):
+                        for st_ in mg.blocks[x]["s"]:
+                            if st_["rv"]["k"] == "agg" and st_["rv"].get("adt") == "std::ops::Bound":
+                                found = st_["rv"].get("variant")
+                                break
+                        if found:
+                            break
+                    if found != nm:
+                        good = False
+            kinds_ok += 1 if good else -100
+        # Read::All only when BOTH bounds are unbounded
+        all_b = [b for b, blk in enumerate(mg.blocks) if not blk["cleanup"] for st_ in blk["s"] if st_["rv"]["k"] == "agg" and st_["rv"].get("variant") == "All"]
+        eqs = [b for b, t in mg.calls() if A.cname(t).endswith(("::eq", "::ne")) and "Bound" in (A.cname(t) + (t.get("full") or "") + mg.local_ty(A.op_place(t["args"][0])["l"] if A.op_place(t["args"][0]) else 0))]
+        ok_all = bool(all_b) and len(eqs) >= 2
+        for c in eqs:
+            sw = A.switch_after_call(mg, c)
+            if sw is None:
+                ok_all = False
+                continue
+            z_, t_ = A.bool_edges(mg, sw)
+            unequal = t_ if A.cname(mg.term(c)).endswith("::ne") else z_
+            if any(ab in A.reach(mg, list(unequal), avoid=[e for e in eqs if e != c]) for ab in all_b):
+                ok_all = False
+        ctx.ob("R-C07.14", mg, "mark_range-records-the-range-as-given", ok and kinds_ok >= 2 and ok_all,
+               "bounds keep their kind, Read::All only for (Unbounded, Unbounded), push_read on every path" if (ok and kinds_ok >= 2 and ok_all) else
+               "mark_range does not record the scanned range as given (push on every path: %s, bound kinds preserved: %s, Read::All only for a fully unbounded range: %s): a boundary key or a whole side of the range is left out of validation" % (ok, kinds_ok >= 2, ok_all))
+    # ---- R-C07.15 has_conflict answers `true` exactly on the "a write of the other transaction lies in what I read" edge of each
+    # query (contains -> true; range(..).next().is_some() -> true; non-empty set for Read::All)
+    if hc:
+        og_ = ctx.og(hc)
+        true_ret = [b for b, blk in enumerate(hc.blocks) if not blk["cleanup"] for st_ in blk["s"]
+                    if st_["p"]["l"] == 0 and not st_["p"]["p"] and st_["rv"]["k"] == "use" and (st_["rv"]["a"].get("const") or {}).get("val") is True]
+        tests = []
+        for b, t in hc.calls():
+            n = A.cname(t)
+            if n.endswith("BTreeSet::<T, A>::contains") or n.endswith("RangeToInclusive::<Idx>::contains") or n.endswith("RangeTo::<Idx>::contains"):
+                tests.append((b, False, "contains"))
+            elif n.endswith("Option::<T>::is_some"):
+                tests.append((b, False, "is_some"))
+            elif n.endswith("Option::<T>::is_none"):
+                tests.append((b, True, "is_none"))
+            elif n.endswith("BTreeSet::<T, A>::is_empty"):
+                tests.append((b, True, "is_empty"))
+        bad = []
+        nexts_ = [b for b, t in hc.calls() if A.cname(t).endswith("::next") and A.in_cycle(hc, b)]
+        for b, inverted, what in tests:
+            sw = A.switch_after_call(hc, b)
+            if sw is None:
+                bad.append((b, what, "result not branched on"))
+                continue
+            z_, t_ = A.bool_edges(hc, sw)
+            # a `!x` in the source flips the switch operand
+            tm_, neg_ = A.strip_not(og_.of_operand(hc.term(sw)["d"]))
+            found = (z_ if inverted else t_) if not neg_ else (t_ if inverted else z_)
+            notfound = (t_ if inverted else z_) if not neg_ else (z_ if inverted else t_)
+            stop = nexts_ + [x for x, _, _ in tests if x != b]
+            if not any(tr in A.reach(hc, list(found), avoid=stop) for tr in true_ret):
+                bad.append((b, what, "the 'found' edge does not answer true"))
+            if any(tr in A.reach(hc, list(notfound), avoid=stop) for tr in true_ret):
+                bad.append((b, what, "the 'nothing found' edge answers true"))
+        ctx.ob("R-C07.15", hc, "conflict-reported-exactly-when-a-write-is-found", len(tests) >= 10 and not bad,
+               "%d queries of the other transaction's write set: each answers true on its 'found' edge only" % len(tests) if (len(tests) >= 10 and not bad) else
+               "has_conflict's %s at %s: %s — a conflicting commit goes unnoticed (or every disjoint one is refused)" % (bad[0][1], hc.loc(bad[0][0]), bad[0][2]) if bad else "only %d queries found (10 expected)" % len(tests),
+               hc.loc(bad[0][0]) if bad else "")
+
     # ---- R-C07.8 the single-operation READ helpers of the optimistic tx keyspace are transactions too ("including the
     # single-operation helpers on its keyspaces"): each reads through a read view (db.read_tx()), never through the plain
     # keyspace's latest-state reads (SeqNo::MAX looks into a commit that is still being applied: get(first) can return
